@@ -47,7 +47,8 @@ def confirm(item):
                 pass
         if benign:
             # a behaviour-preserving edit: confirmed with the demonstration of the sibling breaking change (<prop>/g/demo.py)
-            demo = os.path.join(os.path.dirname(d), 'g', 'demo.py')
+            demo = next((os.path.join(os.path.dirname(d), k_, 'demo.py') for k_ in sorted(os.listdir(os.path.dirname(d)))
+                         if os.path.exists(os.path.join(os.path.dirname(d), k_, 'demo.py'))), demo)
         rc, out = sh(['git', 'apply', '--check', patch], cwd=wt)
         if rc:
             res['why'] = 'patch does not apply: ' + out[-200:]
@@ -102,8 +103,8 @@ def main():
             continue
         for k in sorted(os.listdir(pd)):
             d = os.path.join(pd, k)
-            if os.path.exists(os.path.join(d, 'patch.diff')) and (os.path.exists(os.path.join(d, 'demo.py'))
-                                                                   or os.path.exists(os.path.join(pd, 'g', 'demo.py'))):
+            if os.path.exists(os.path.join(d, 'patch.diff')) and (os.path.exists(os.path.join(d, 'demo.py')) or any(
+                    os.path.exists(os.path.join(pd, k_, 'demo.py')) for k_ in os.listdir(pd))):
                 if len(sys.argv) > 2 and sys.argv[2] not in prop:
                     continue
                 if os.environ.get('SEED_KS') and k not in os.environ['SEED_KS'].split(','):
